@@ -38,6 +38,8 @@ func propC03(c *Ctx) {
 	ruleHandlerConsume(c, rhc)
 	rfw := c.Rule("finalizer-walk-bounded", "the walk of OpFinalizer over consumed handlers tests its bound on every step: handlers of the try statements that enclose the loop being left are never touched", 1)
 	ruleFinalizerWalkBounded(c, rfw)
+	rsp := c.Rule("stack-index-paired", "the compiler's stack of open loops and the index of the innermost one move together: break / continue are always recorded on the loop they belong to", 1)
+	ruleStackIndexPaired(c, rsp)
 	rcb := c.Rule("counter-balance", "the compile-time try depth (and every other nesting counter) is decremented on every successful path after it was incremented: later statements of the same compilation see the true depth", 2)
 	ruleCounterBalance(c, rcb)
 	rtp := c.Rule("try-end-pop", "the instruction that ends a try statement pops the statement's consumed handler when neither an error nor a return is pending: try statements that already completed have no influence on later ones", 1)
